@@ -507,93 +507,122 @@ func c16Guard(c *Ctx) {
 			continue
 		}
 		n++
-		indent := soleParam(c, fd)
 		ob := c.Ob("C16.R1", name+"/guard", fd.Pos())
-		guard, ok := fd.Body.List[0].(*ast.IfStmt)
-		if !ok || indent == nil || guard.Else != nil || !blockPanicsOnly(c, guard.Body.List) {
-			ob.Fail("the first statement is not the panicking range guard on the indent")
-		} else {
-			good, why := true, ""
-			for _, v := range breakpoints(c.intConstantsIn(guard.Cond), 0, 10) {
-				ev := &evalEnv{c: c, vars: map[types.Object]int64{indent: v}}
-				got, ok := ev.bool(guard.Cond)
-				want := v < 0 || v > 10
-				if !ok {
-					good, why = false, "guard outside the vocabulary: "+ev.fail
-					break
-				}
-				if got != want {
-					good, why = false, "indent "+itoa(int(v))+": panics="+boolStr(got)+", documented="+boolStr(want)
-					break
-				}
-			}
-			if good {
-				ob.Ok("guard `%s` equals `indent < 0 || indent > 10` on all break-points", exprStr(guard.Cond))
-			} else {
-				ob.Fail("panic guard differs from the documented domain 0..10: %s", why)
-			}
-			// no other panic-free path skips it: the guard is the first statement, so it dominates everything
+		cases, bad, undec := c.panicDomain(fd, 1, func(_ int64, p []int64) bool { return p[0] < 0 || p[0] > 10 })
+		switch {
+		case undec != "":
+			ob.Undecided("guard cannot be folded: %s", undec)
+		case bad != "":
+			ob.Fail("panic guard differs from the documented domain 0..10: %s", bad)
+		default:
+			ob.Ok("panics exactly for indent < 0 or indent > 10 (paths folded over %d break-point combinations)", cases)
 		}
-		// R2: the re-indenter
+		// R2: on every non-panicking path: json.Indent(fresh buffer, []byte(self.String()), "", strings.Repeat(" ", indent)); return buffer.String()
 		ob2 := c.Ob("C16.R2", name+"/indent-call", fd.Pos())
-		rest := fd.Body.List[1:]
-		good := len(rest) == 3
-		var buf types.Object
-		if good {
-			as, ok := rest[0].(*ast.AssignStmt)
-			good = ok && len(as.Lhs) == 1 && len(as.Rhs) == 1
-			if good {
-				buf = c.obj(as.Lhs[0])
-				nc, ok := unparen(as.Rhs[0]).(*ast.CallExpr)
-				good = ok && (c.isBuiltin(nc, "new") || c.calleeFull(nc) == "bytes.NewBuffer")
-				if good && c.isBuiltin(nc, "new") {
-					good = c.typeOf(nc.Args[0]) != nil && c.typeOf(nc.Args[0]).String() == "bytes.Buffer"
+		paths, why := c.runPaths(fd)
+		v := c.view(fd)
+		indent := soleParam(c, fd)
+		msg := why
+		nOK := 0
+		for _, p := range paths {
+			if msg != "" || p.End == "panic" {
+				continue
+			}
+			nOK++
+			var ind *TCall
+			for _, s := range p.Effects() {
+				if s.Kind == "call" && s.Call != nil && s.Call.Fun != nil && s.Call.Fun.FullName() == "encoding/json.Indent" && ind == nil {
+					ind = s.Call
+					continue
 				}
+				msg = "unexpected effect " + c.stepStr(s)
+			}
+			if msg != "" {
+				break
+			}
+			if ind == nil || len(ind.Args) != 4 {
+				msg = "the text is not re-indented by json.Indent"
+				break
+			}
+			buf := ind.Args[0]
+			fresh := false
+			switch b := buf.(type) {
+			case TBuiltin:
+				fresh = b.Name == "new" && b.Type != nil && b.Type.String() == "bytes.Buffer"
+			case TAddr:
+				fresh = true
+				_ = b
+			case TCall:
+				fresh = b.Fun != nil && b.Fun.FullName() == "bytes.NewBuffer"
+			}
+			if !fresh {
+				msg = "the destination is not a fresh bytes.Buffer"
+				break
+			}
+			src, ok := ind.Args[1].(TConv)
+			good := ok
+			if good {
+				nm, args, ok := v.selfCall(src.X)
+				good = ok && nm == "String" && len(args) == 0
+			}
+			if !good {
+				msg = "the source is not []byte(self.String()) of the same receiver"
+				break
+			}
+			if pre, ok := isConstStringTerm(ind.Args[2]); !ok || pre != "" {
+				msg = "the prefix is not empty"
+				break
+			}
+			rp, ok := ind.Args[3].(TCall)
+			good = ok && rp.Fun != nil && rp.Fun.FullName() == "strings.Repeat" && len(rp.Args) == 2 && isParamTerm(rp.Args[1], indent)
+			if good {
+				sp, oks := isConstStringTerm(rp.Args[0])
+				good = oks && sp == " "
+			}
+			if !good {
+				msg = "the indentation is not strings.Repeat(\" \", indent)"
+				break
+			}
+			ret, ok := (TCall{}), false
+			if p.End == "return" && len(p.Vals) == 1 {
+				ret, ok = p.Vals[0].(TCall)
+			}
+			if !ok || ret.Fun == nil || ret.Fun.FullName() != "(*bytes.Buffer).String" || ret.Recv == nil || !sameBuffer(ret.Recv, buf) {
+				msg = "the result is not the destination buffer's content"
+				break
 			}
 		}
-		if good {
-			es, ok := rest[1].(*ast.ExprStmt)
-			good = ok
-			if good {
-				call, ok := es.X.(*ast.CallExpr)
-				good = ok && c.calleeFull(call) == "encoding/json.Indent" && len(call.Args) == 4 && c.obj(call.Args[0]) == buf
-				if good {
-					// src = []byte(self.String())
-					conv, ok := unparen(call.Args[1]).(*ast.CallExpr)
-					good = ok && len(conv.Args) == 1
-					if good {
-						sc, ok := unparen(conv.Args[0]).(*ast.CallExpr)
-						good = ok && len(sc.Args) == 0
-						if good {
-							sel, ok := unparen(sc.Fun).(*ast.SelectorExpr)
-							good = ok && c.isSelf(fd, sel.X) && c.callee(sc) != nil && c.callee(sc).Name() == "String"
-						}
-					}
-					prefix, okp := c.constString(call.Args[2])
-					good = good && okp && prefix == ""
-					rp, ok := unparen(call.Args[3]).(*ast.CallExpr)
-					good = good && ok && c.calleeFull(rp) == "strings.Repeat" && len(rp.Args) == 2 && c.obj(rp.Args[1]) == indent
-					if good {
-						sp, oks := c.constString(rp.Args[0])
-						good = oks && sp == " "
-					}
-				}
-			}
+		if msg == "" && nOK == 0 {
+			msg = "no non-panicking path"
 		}
-		if good {
-			r, ok := rest[2].(*ast.ReturnStmt)
-			good = ok && len(r.Results) == 1
-			if good {
-				bs, ok := unparen(r.Results[0]).(*ast.CallExpr)
-				good = ok && c.calleeFull(bs) == "(*bytes.Buffer).String"
-				if good {
-					sel := unparen(bs.Fun).(*ast.SelectorExpr)
-					good = c.obj(sel.X) == buf
-				}
-			}
+		if msg == "" {
+			ob2.Ok("json.Indent(fresh buffer, []byte(self.String()), \"\", strings.Repeat(\" \", indent)) and the buffer's content is returned: same tokens as String(), canonical layout")
+		} else {
+			ob2.Fail("FormatString is not json.Indent over String() of the same receiver with an empty prefix and `indent` spaces per level: %s", msg)
 		}
-		ob2.Check(good, "json.Indent(fresh buffer, []byte(self.String()), \"\", strings.Repeat(\" \", indent)) and the buffer's content is returned: same tokens as String(), canonical layout",
-			"FormatString is not json.Indent over String() of the same receiver with an empty prefix and `indent` spaces per level")
 	}
 	c.R.Floor("C16.R1", n, 2)
+}
+
+// sameBuffer: two terms denote the same buffer object (ignoring memory epochs of pointer dereferences).
+func sameBuffer(a, b Term) bool {
+	strip := func(t Term) Term {
+		if d, ok := t.(TDeref); ok {
+			return d.X
+		}
+		return t
+	}
+	ka, kb := key(strip(a)), key(strip(b))
+	if ka == kb {
+		return true
+	}
+	// &buffer vs buffer (value receiver of a local): compare the underlying variable
+	sa, sb := strip(a), strip(b)
+	if x, ok := sa.(TAddr); ok {
+		sa = x.X
+	}
+	if x, ok := sb.(TAddr); ok {
+		sb = x.X
+	}
+	return key(sa) == key(sb)
 }
